@@ -216,6 +216,7 @@ def run_case(case, ctx, res):
         fy = bulk[1][np.isfinite(bulk[1])] if len(bulk[1]) == n else np.asarray(y, float)
         if len(fx) and len(fy):
             lo, hi = float(fx.min()), float(fx.max())
+            xlo, xhi = lo, hi
             w = (hi - lo) or 1.0
             # limits that cut into the data: points within one bin width outside each limit
             kw["xmin"] = lo + w * float(rng.uniform(0.0, 0.3)) + (1e-3 if logx else 0)
@@ -230,6 +231,10 @@ def run_case(case, ctx, res):
             if logy:
                 kw["ymin"] = max(kw["ymin"], 1e-3)
                 kw["ymax"] = max(kw["ymax"], kw["ymin"] * 1.5)
+            # a limit that is set, but falsy: exactly zero
+            if not logx and rng.random() < 0.25 and xlo < 0 < xhi:
+                kw["xmin" if rng.random() < 0.5 else "xmax"] = 0.0
+                res.tag("explicit-limit-zero")
             if kw["xmax"] <= kw["xmin"]:
                 kw["xmax"] = kw["xmin"] + 1.0
             res.tag("just-outside-limits")
